@@ -91,6 +91,13 @@ pub enum Op {
     Advance { secs: i64 },
     Pump,
     Restart { inst: usize },
+    /// Explicit RRDP session reset.
+    RrdpSessionReset { inst: usize },
+    /// Restart with another RRDP retention configuration.
+    RestartRrdp {
+        inst: usize, min_nr: usize, max_nr: usize, min_seconds: u32,
+        max_seconds: u32, interval: u32,
+    },
 }
 
 impl Op {
@@ -116,6 +123,8 @@ impl Op {
             Op::Advance { .. } => "advance",
             Op::Pump => "pump",
             Op::Restart { .. } => "restart",
+            Op::RrdpSessionReset { .. } => "rrdp_session_reset",
+            Op::RestartRrdp { .. } => "restart_rrdp",
         }
     }
 }
@@ -146,6 +155,8 @@ pub struct GenCfg {
     pub w_keyroll: u64,
     pub w_maintenance: u64,
     pub w_clock: u64,
+    /// Weight of RRDP session resets and retention changes (C11).
+    pub w_rrdp: u64,
     pub pump_pct: u64,
 }
 
@@ -169,9 +180,21 @@ impl Default for GenCfg {
             w_keyroll: 8,
             w_maintenance: 8,
             w_clock: 8,
+            w_rrdp: 0,
             pump_pct: 55,
         }
     }
+}
+
+/// Draws an RRDP retention configuration:
+/// (min_nr, max_nr, min_seconds, max_seconds, interval).
+pub fn draw_rrdp_retention(rng: &mut Rng) -> (usize, usize, u32, u32, u32) {
+    let max_nr = *rng.pick(&[1usize, 2, 3, 5, 8, 50]);
+    let min_nr = std::cmp::min(*rng.pick(&[0usize, 1, 2, 5]), max_nr);
+    let min_seconds = *rng.pick(&[0u32, 0, 30, 1200]);
+    let max_seconds = *rng.pick(&[1u32, 600, 7200, 86400]);
+    let interval = *rng.pick(&[0u32, 0, 0, 60, 300]);
+    (min_nr, max_nr, min_seconds, max_seconds, interval)
 }
 
 pub fn random_res(rng: &mut Rng, within: &Res, allow_empty: bool) -> Res {
@@ -306,8 +329,23 @@ pub fn generate(rng: &mut Rng, ctx: &GenCtx) -> Op {
     }
 
     let total = cfg.w_entitlement + cfg.w_config + cfg.w_removal
-        + cfg.w_keyroll + cfg.w_maintenance + cfg.w_clock + 10;
+        + cfg.w_keyroll + cfg.w_maintenance + cfg.w_clock + cfg.w_rrdp
+        + 10;
     let mut pick = rng.below(total);
+
+    if pick < cfg.w_rrdp {
+        return if rng.chance(1, 2) || !ctx.disk[0] {
+            Op::RrdpSessionReset { inst: 0 }
+        }
+        else {
+            let (min_nr, max_nr, min_seconds, max_seconds, interval)
+                = draw_rrdp_retention(rng);
+            Op::RestartRrdp {
+                inst: 0, min_nr, max_nr, min_seconds, max_seconds, interval,
+            }
+        }
+    }
+    pick -= cfg.w_rrdp;
 
     // Configuration changes.
     if pick < cfg.w_config {
